@@ -15,7 +15,7 @@ from __future__ import annotations
 
 import ast
 
-from .. import cfg, clifacts
+from .. import cfg, clifacts, inline
 from .. import configfacts as CF
 from ..facts import UNKNOWN, call_name, dotted, norm
 from ..linters import Linters
@@ -314,6 +314,18 @@ def check(run, ctx):
         else:
             run.ok(U6, f.qual.replace("src.", "", 1), "every returned violation list is [] or built by violation_builder in this call")
     run.require(n_u6 >= 1, "no shared helper with a violation_builder parameter found in src.core")
+
+    U8 = run.rule("U8", "the shebang decision looks at the first line of the file only: what reaches the `#!` / `python` tests is cut at the first line break", floor=1,
+                  decides="a shell launcher (`#!/bin/sh` ... `exec python3 -m tool`) or any text that mentions python further down is not analysed as Python")
+    rfl = repo.func_by_role("src.orchestrator.language_detector._read_first_line", "reads the beginning of the file for the shebang test",
+                            lambda g: any(isinstance(n, ast.Call) and call_name(n) in ("read_text", "open", "read", "readline") for n in ast.walk(g.node)) and "shebang" not in g.name)
+    cut = [n for n in inline.flat_nodes(repo, rfl) if (isinstance(n, ast.Subscript) and isinstance(repo.fold(rfl.module, n.slice), int) and repo.fold(rfl.module, n.slice) == 0 and isinstance(n.value, ast.Call) and call_name(n.value) in ("split", "splitlines", "partition"))
+           or (isinstance(n, ast.Call) and call_name(n) in ("readline",)) or (isinstance(n, ast.Call) and call_name(n) == "next")]
+    if cut:
+        run.ok(U8, rfl.name, f"first line taken by `{norm(cut[0])[:50]}`")
+    else:
+        rets = [r.value for r in ast.walk(rfl.node) if isinstance(r, ast.Return) and r.value is not None]
+        run.finding(U8, rfl.name, f"not-cut-at-line-break:{norm(rets[0])[:50] if rets else '?'}", f"{rfl.name} returns `{norm(rets[0])[:70] if rets else '?'}` without cutting at the first line break: the `python` test of the shebang parser then sees text from later lines, so a non-Python script that mentions python early is analysed as Python (syntax-error and header findings on a file type no rule supports)", rfl.loc)
     return __doc__
 
 
